@@ -36,6 +36,10 @@ pub enum HOp {
     SynAck(u8, bool),
     /// client role only: a SYN frame from the server (must be ignored)
     StraySyn(u8),
+    /// the session under test sends this many bytes on one of its stream instances (any instance so
+    /// far, also one the peer has finished - forwarders keep writing until they notice) the way the
+    /// forwarding loops do (send_data)
+    LocalSend(u8, usize),
 }
 
 #[derive(Clone, Debug, Serialize, Deserialize)]
@@ -60,6 +64,15 @@ struct Inst {
     expected: Vec<u8>,
     finished: bool,
     replaced: bool,
+    /// bytes the session under test sent on this instance
+    sent: Vec<u8>,
+    /// ... of which this many were sent after the peer's FIN for it had been written
+    sent_after_fin: usize,
+}
+
+thread_local! {
+    /// the stream handles of the running case, in instance order (spawn_reader is called once per instance)
+    static HANDLES: std::cell::RefCell<Vec<Arc<Stream>>> = const { std::cell::RefCell::new(Vec::new()) };
 }
 
 #[derive(Default)]
@@ -70,6 +83,7 @@ struct Seen {
 }
 
 fn spawn_reader(st: Arc<Stream>) -> Arc<Mutex<Seen>> {
+    HANDLES.with(|h| h.borrow_mut().push(st.clone()));
     let seen: Arc<Mutex<Seen>> = Default::default();
     let s2 = seen.clone();
     tokio::spawn(async move {
@@ -107,6 +121,7 @@ impl Family for HistoryFam {
             3 => id.clone().prop_map(HOp::Fin),
             1 => (id.clone(), any::<bool>()).prop_map(|(i, e)| HOp::SynAck(i, e)),
             1 => id.prop_map(HOp::StraySyn),
+            3 => (any::<u8>(), prop_oneof![1usize..40, 41usize..3000]).prop_map(|(k, n)| HOp::LocalSend(k, n)),
         ];
         let infl = proptest::option::weighted(0.4, proptest::collection::vec(prop_oneof![2 => Just(0u8), 2 => Just(1u8), 1 => Just(2u8), 1 => Just(5u8)], 1..40));
         (any::<bool>(), proptest::collection::vec(op, 1..40), c01::pipe_params(), 1u8..12, infl)
@@ -119,6 +134,8 @@ impl Family for HistoryFam {
         let total: usize = case.ops.iter().map(|o| if let HOp::Psh(_, n) = o { *n + 7 } else { 7 }).sum();
         let res: Result<(usize, usize, usize, usize), Fail> = run_virtual(async move {
             let case = case2;
+            HANDLES.with(|h| h.borrow_mut().clear());
+            let has_local = case.ops.iter().any(|o| matches!(o, HOp::LocalSend(..)));
             if let Some(y) = &case.inflight_yields {
                 install_schedule(y.clone());
             }
@@ -134,6 +151,7 @@ impl Family for HistoryFam {
             let mut strays = 0usize;
             let mut opened_ids: Vec<u32> = Vec::new();
             let mut inflight_opens = 0usize;
+            let mut local_sends = 0usize;
             let mut unsettled: Vec<u32> = Vec::new();
 
             let mut peer;
@@ -151,6 +169,10 @@ impl Family for HistoryFam {
             } else {
                 let c = client_session(&mut l, pad, None);
                 within(WATCHDOG, c.clone().start_client()).await;
+                if has_local {
+                    // what every real caller does before its first write; otherwise nothing leaves the session
+                    c.disable_buffering();
+                }
                 client = Some(c);
                 _server = None;
                 peer = ScriptPeer::server_side(&mut l);
@@ -239,6 +261,24 @@ impl Family for HistoryFam {
                         pending.push(RFrame::new(rc::SYNACK, id, if *err { b"refused".to_vec() } else { Vec::new() }));
                         strays += 1;
                     }
+                    HOp::LocalSend(k, n) => {
+                        if !insts.is_empty() && seen.len() == insts.len() {
+                            let j = idx((*k as u16) << 8, insts.len());
+                            let st = HANDLES.with(|h| h.borrow().get(j).cloned());
+                            if let Some(st) = st {
+                                let d = keyed(j as u32 + 500, 4, insts[j].sent.len() as u64, *n);
+                                // send_data fails on a stream that was closed locally; a stream the peer has
+                                // finished may refuse or accept - only what it accepted counts
+                                if st.send_data(bytes::Bytes::from(d.clone())).is_ok() {
+                                    if insts[j].finished || insts[j].replaced {
+                                        insts[j].sent_after_fin += d.len();
+                                    }
+                                    insts[j].sent.extend_from_slice(&d);
+                                    local_sends += 1;
+                                }
+                            }
+                        }
+                    }
                     HOp::StraySyn(i) => {
                         if !case.server_role {
                             pending.push(RFrame::ctl(rc::SYN, POOL[*i as usize]));
@@ -311,9 +351,41 @@ impl Family for HistoryFam {
                     ensure!(!s.eof, "C02.fin", "{tag}: reader reached end-of-stream although no FIN was sent for it");
                 }
             }
-            Ok((max_open, strays, insts.len(), inflight_opens))
+            // what the session under test sent: every byte of a live instance arrives at the peer under
+            // that instance's id, whatever happened to other streams (ids with more than one instance
+            // are left out: the peer cannot tell the instances apart)
+            if local_sends > 0 {
+                let out_frames = peer.drain(Duration::from_millis(300)).await;
+                let mut by_sid: std::collections::HashMap<u32, Vec<u8>> = Default::default();
+                for f in peer.seen.iter().filter(|f| f.cmd == rc::PSH) {
+                    by_sid.entry(f.sid).or_default().extend_from_slice(&f.data);
+                }
+                let _ = out_frames;
+                for (k, inst) in insts.iter().enumerate() {
+                    if inst.sent.is_empty() || insts.iter().filter(|o| o.id == inst.id).count() > 1 {
+                        continue;
+                    }
+                    let got = by_sid.get(&inst.id).cloned().unwrap_or_default();
+                    let tag = format!("instance #{k} (stream id {})", inst.id);
+                    let n = got.len().min(inst.sent.len());
+                    ensure!(got[..n] == inst.sent[..n] && got.len() <= inst.sent.len(), "C02.route", "{tag}: the peer received bytes under this id that the stream did not send");
+                    let must = inst.sent.len() - inst.sent_after_fin;
+                    ensure!(
+                        got.len() >= must,
+                        "C02.stray",
+                        "{tag}: the session sent {} bytes on this stream ({} of them after the peer's FIN for it), the peer received {} - data of a live stream disappeared",
+                        inst.sent.len(),
+                        inst.sent_after_fin,
+                        got.len()
+                    );
+                }
+            }
+            Ok((max_open, strays, insts.len(), inflight_opens + 1000 * local_sends.min(1)))
         });
         let (max_open, strays, n_inst, inflight_opens) = res?;
+        let local = inflight_opens >= 1000;
+        let inflight_opens = inflight_opens % 1000;
+        out.class_if(local, "local-sends");
         out.class_if(inflight_opens > 0, "open-with-foreign-frames-in-flight");
         out.nt(max_open >= 2 && strays >= 1);
         out.class_if(max_open >= 2, "open>=2");
